@@ -279,6 +279,53 @@ def reseg(sc, how):
     return sc2
 
 
+def via_deflate(sc, how='rand'):
+    """Variant of a scenario on a connection that negotiated permessage-deflate: every complete, plain data message of the server
+    stream is sent compressed by the RFC 7692 peer (same number of fragments, Ping / Pong between the fragments if the original had
+    control frames there); incomplete messages and everything else stay as they are (uncompressed messages are legal on such a
+    connection).  Reads are re-cut by bytes because frame sizes change."""
+    import copy
+    sc2 = reseg(sc, how)
+
+    def plain(it):
+        return it.get('t') == 'f' and 'pl' in it and not any(it.get(k) for k in ('rsv1', 'rsv2', 'rsv3', 'mask', 'lenform', 'announce', 'z'))
+    for conn in sc2['conns']:
+        st = conn.get('stream') or []
+        out, i = [], 0
+        while i < len(st):
+            it = st[i]
+            if it.get('t') == 'http':
+                it = dict(it)
+                if it.get('v', 'ok') == 'ok' and not it.get('ext'):
+                    it['ext'] = 'permessage-deflate'
+                out.append(it)
+                i += 1
+                continue
+            if plain(it) and it['op'] in (1, 2):
+                frames, ctl, complete, k = [it], 0, it.get('fin', 1) == 1, i + 1
+                while not complete and k < len(st):
+                    nx = st[k]
+                    if plain(nx) and nx['op'] == 0:
+                        frames.append(nx)
+                        complete = nx.get('fin', 1) == 1
+                    elif plain(nx) and nx['op'] in (9, 10) and nx.get('fin', 1) == 1 and len(nx['pl']) <= 125:
+                        ctl += 1
+                    else:
+                        break
+                    k += 1
+                if complete:
+                    data = [b for f in frames for b in f['pl']]
+                    out.append({"t": "zmsg", "op": it['op'], "data": data, "z": True, "frags": len(frames), "ctl": ctl > 0})
+                    i = k
+                    continue
+            out.append(it)
+            i += 1
+        conn['stream'] = out
+    sc2['ws_kwargs'] = dict(sc2.get('ws_kwargs') or {}, compress=True)
+    sc2['peer'] = {"swb": 15, "cwb": 15, "s_nct": False, "c_nct": False}
+    return sc2
+
+
 def _last_obs(raw):
     """The obs variable of the last state of a TLC error trace, compacted."""
     i = raw.rfind('/\\ obs = ')
